@@ -4,6 +4,7 @@ C17 - inventories: faithful write, survivable read.
   R17.2 line grammar: every index into the split line is protected; only ValueError leaves; the caller skips the line
   R17.3 every decoding stage reports its failure and keeps what is still usable (complete lines of a truncated stream, decodable lines)
   R17.4 writer/reader agreement on the line format; one line per visible object
+  R17.5 the inventory lists the subjects that were written
 Does not decide: equality after a real round trip, Sphinx's own loader.
 """
 from __future__ import annotations
